@@ -94,12 +94,12 @@ def check(run, F, tier):
         r2.ok("manual-binding-emits-caller-packet", {"paths": n})
 
     # ------------------------------------------------------------------ R4
-    r4 = run.rule("C13-R4", "receive side: lookup or TopicAliasInvalid; range check dominates registration; invalid => not delivered", floor=3)
+    r4 = run.rule("C13-R4", "receive side: lookup or TopicAliasInvalid; range check dominates registration; invalid => not delivered; topic+alias always binds", floor=4)
     f = recvh[("v5_0", "publish")]
     res = conn.paths(F, f["path"])
     interned = res["interned"]
     problems = {}
-    n_inv = n_reg = n_look = 0
+    n_inv = n_reg = n_look = n_bind = n_found = 0
     for p in res["paths"]:
         if p.kind != "return":
             continue
@@ -132,14 +132,38 @@ def check(run, F, tier):
                     gt = True
             if not (zero and gt):
                 problems.setdefault("alias registered on the receive table without the 1..=max range check", p)
-    if n_inv == 0 or n_reg == 0 or n_look == 0:
-        problems.setdefault("invalid=%d register=%d lookup=%d paths (anchor lost)" % (n_inv, n_reg, n_look), None)
+        # a PUBLISH that carries topic + alias binds the alias whether or not it is delivered (the sender regards it
+        # as bound once sent): every accepted non-empty-topic path looks for the alias property, and registers it when found
+        err = any(x.startswith("NotifyError") for x in w)
+        if emp and emp[0] is False and not err:
+            n_bind += 1
+            win = None
+            found = False
+            for e in p.effects:
+                if e[0] == "enter" and e[1].endswith("::get_topic_alias_from_props"):
+                    win = []
+                elif e[0] == "exit" and e[1].endswith("::get_topic_alias_from_props") and win is not None:
+                    nx = [x for x in win if x[0] == "call" and x[1].endswith("::next")]
+                    found = bool(nx) and conn.possible(F, p, nx[-1][4][1], "std::option::Option") == {"Some"}
+                    break
+                elif win is not None:
+                    win.append(e)
+            if win is None:
+                problems.setdefault("accepted PUBLISH with a topic name is not searched for a Topic Alias to bind", p)
+            elif found and not iou:
+                n_found += 1
+                problems.setdefault("accepted PUBLISH with topic name and Topic Alias does not bind the alias", p)
+            elif found:
+                n_found += 1
+    if n_inv == 0 or n_reg == 0 or n_look == 0 or n_bind == 0 or n_found == 0:
+        problems.setdefault("invalid=%d register=%d lookup=%d bind=%d found=%d paths (anchor lost)" % (n_inv, n_reg, n_look, n_bind, n_found), None)
     for pr, p in sorted(problems.items()):
         r4.violation("%s/%s" % (f["name"], pr), "%s: %s" % (f["name"], pr), conn.path_summary(p) if p else None, site="%s:%s" % (f["file"], f["line"]))
     if not problems:
         r4.ok(f["name"], {"invalid_paths": n_inv, "register_paths": n_reg, "lookup_paths": n_look})
         r4.ok("invalid-never-delivers")
         r4.ok("range-check-dominates-registration")
+        r4.ok("topic-with-alias-always-binds", {"accepted_paths_with_topic": n_bind, "with_alias_found": n_found})
 
     # ------------------------------------------------------------------ R5
     r5 = run.rule("C13-R5", "alias tables are created only in the handshake handlers, from a non-zero Topic Alias Maximum", floor=4)
